@@ -159,20 +159,58 @@ def run(chk):
     P4 = 1 + B1 * a1 + B2 * a1**2 + B3 * a1**3
     as4 = [("j13_exact", 2, e4.j13_exact), ("j23_exact", 3, e4.j23_exact), ("j33_exact", 4, e4.j33_exact)]
     vals = {}
+    import mpmath as mp
+    # a physical configuration for the value check: one real negative root and a complex pair whose real part lies BETWEEN the two couplings (nf = 3: Re r = 0.0176)
+    ROOTS = {"r1": mp.mpf(-1) / 3, "r2": mp.mpc(mp.mpf(1) / 40, mp.mpf(1) / 25), "r3": mp.mpc(mp.mpf(1) / 40, -mp.mpf(1) / 25)}
+    from pyvc import vnp as _vnp
+    _real_shim = _vnp.real
+    branching = False
+    # the roots are genuinely complex here: np.real must not be the identity the shim assumes elsewhere ("value analytically real")
+    _vnp.real = lambda x: T.app("Re", x) if isinstance(x, T.Sym) and not x.is_const() else _real_shim(x)
     for name, k, f in as4:
         fn = f"eko.kernels.as4_evolution_integrals:{name}"
         chk.under_contract(fn)
-        j = f(a1, a0, beta0, BL, rts)
-        vals[name] = j
         rp = quad_replay(fn, name, k, 4, "as4")
-        chk.eq(f"C13.exact.as4.{name}.derivative", T.diff(j, "a1") * (beta0 * a1**2 * P4), a1**k, fn=fn,
-               goal=f"requires r = roots of P_4 (Vieta): d {name}/d a1 * beta_4(a1) == a1^{k}", ranges=RANGES, replay=rp)
-        chk.eq(f"C13.exact.as4.{name}.zero", f(a0, a0, beta0, BL, rts), 0, fn=fn, goal=f"{name}(a0,a0) == 0", replay=rp)
+        paths = chk.run_paths(f"C13.exact.as4.{name}", lambda: f(a1, a0, beta0, BL, rts), [], fn=fn, replay=rp)
+        if len(paths) == 1:
+            j = paths[0][2]
+            vals[name] = j
+            chk.eq(f"C13.exact.as4.{name}.derivative", T.diff(j, "a1") * (beta0 * a1**2 * P4), a1**k, fn=fn,
+                   goal=f"requires r = roots of P_4 (Vieta): d {name}/d a1 * beta_4(a1) == a1^{k}", ranges=RANGES, replay=rp)
+            chk.eq(f"C13.exact.as4.{name}.zero", f(a0, a0, beta0, BL, rts), 0, fn=fn, goal=f"{name}(a0,a0) == 0", replay=rp)
+        elif paths:
+            vals[name] = paths[0][2]
+            branching = True
+            # explicit real / imaginary parts and branches on them are outside the algebra the identities are proved in (A2): undecided, never a violation by itself
+            chk.error(f"C13.exact.as4.{name}.derivative", f"{name} branches on symbolic values ({len(paths)} paths): the derivative identity is undecided for this code; only the value check below decides it")
+        # derivative + initial value determine the integral only for a function that is continuous between the couplings: the value itself, at couplings on
+        # either side of the real part of the complex roots (both orders), against a 40-digit quadrature of the defining integral
+        bad = []
+        for lo, hi in ((Q(1, 100), Q(1, 20)), (Q(1, 20), Q(1, 100)), (Q(3, 100), Q(1, 20))):
+            env = dict(ROOTS, a0=lo, a1=hi, beta0=Q(9))
+            cand = [j for _, pc, j in paths if all(bool(T.evalmp(c_, env, 40)) for c_ in pc)]
+            if len(cand) != 1:
+                bad.append(f"{len(cand)} feasible paths at a0={lo}, a1={hi}")
+                continue
+            got = T.evalmp(cand[0], env, 40)
+            r_ = [ROOTS["r1"], ROOTS["r2"], ROOTS["r3"]]
+            b3_ = -1 / (r_[0] * r_[1] * r_[2])
+            p4 = lambda a: mp.re(b3_ * (a - r_[0]) * (a - r_[1]) * (a - r_[2]))
+            mp.mp.dps = 40
+            want = mp.quad(lambda a: a ** (k - 2) / (9 * p4(a)), [mp.mpf(lo.numerator) / lo.denominator, mp.mpf(hi.numerator) / hi.denominator])
+            if abs(got - want) > mp.mpf(10) ** (-25) * max(1, abs(want)):
+                bad.append(f"a0={lo}, a1={hi}: {mp.nstr(got, 12)} but the integral is {mp.nstr(want, 12)}")
+        chk.ground(f"C13.exact.as4.{name}.value_across_the_complex_roots", not bad, fn=fn, replay=rp, backend="exact-eval+mpmath",
+                   goal=f"{name}(a1, a0) == int_a0^a1 a^{k - 2} / (beta0 P_4(a)) da with the couplings on either side of Re(r) of the complex roots (no branch-cut jump)", detail="; ".join(bad) or None)
+    _vnp.real = _real_shim
     j03 = e4.j03_exact(ei.j12(a1, a0, beta0), vals["j13_exact"], vals["j23_exact"], vals["j33_exact"], BL)
     fn = "eko.kernels.as4_evolution_integrals:j03_exact"
     rp = quad_replay(fn, "j03_exact", 1, 4, "as4")
-    chk.eq("C13.exact.as4.j03_exact.derivative", T.diff(j03, "a1") * (beta0 * a1**2 * P4), a1, fn=fn,
-           goal="d j03/d a1 * beta_4(a1) == a1", ranges=RANGES, replay=rp)
+    if branching:
+        chk.error("C13.exact.as4.j03_exact.derivative", "built from integrals that branch on symbolic values: undecided for this code (the value checks above decide the integrals themselves)")
+    else:
+        chk.eq("C13.exact.as4.j03_exact.derivative", T.diff(j03, "a1") * (beta0 * a1**2 * P4), a1, fn=fn,
+               goal="d j03/d a1 * beta_4(a1) == a1", ranges=RANGES, replay=rp)
     chk.under_contract("eko.kernels.as4_evolution_integrals:derivative")
     chk.eq("C13.as4.derivative", e4.derivative(a1, bl), T.diff(1 + b1 * a1 + b2 * a1**2 + b3 * a1**3, "a1"),
            fn="eko.kernels.as4_evolution_integrals:derivative", goal="derivative(r, b) == P_4'(r)")
